@@ -198,7 +198,9 @@ func c08Values() []extVal {
 			E(fmt.Sprintf("keyshare:one-share-%dB", n), "keyshare", func() tls.TLSExtension {
 				return &tls.KeyShareExtension{KeyShares: []tls.KeyShare{{Group: tls.CurveID(0x6a6a), Data: rep(0x47, n)}}}
 			}),
-			E(fmt.Sprintf("generic:%dB", n), "none", func() tls.TLSExtension { return &tls.GenericExtension{Id: 0xff00, Data: rep(0xab, n)} }))
+			E(fmt.Sprintf("generic:%dB", n), "none", func() tls.TLSExtension { return &tls.GenericExtension{Id: 0xff00, Data: rep(0xab, n)} }),
+			E(fmt.Sprintf("padding:%d", n+4), "padding", func() tls.TLSExtension { return &tls.UtlsPaddingExtension{WillPad: true, PaddingLen: n + 4} }),
+			E(fmt.Sprintf("cookie:%dB", n+4), "exact", func() tls.TLSExtension { return &tls.CookieExtension{Cookie: rep(0xc7, n+4)} }))
 		if n < 256 {
 			vals = append(vals,
 				E(fmt.Sprintf("sni:%dB", n), "sni", func() tls.TLSExtension { return &tls.SNIExtension{ServerName: strings.Repeat("a", n)} }),
